@@ -794,14 +794,16 @@ class ContextStateTransaction(_TransactionBase):
 
             tmp = copy.deepcopy(state_container)
 
+            # the state refers to the descriptor in mdib (the entity is a copy that can be outdated)
+            descriptor_container = self._mdib.descriptions.handle.get_one(entity.descriptor.Handle)
+            tmp.descriptor_container = descriptor_container
             if old_state is None:
-                # this is a new state; it refers to the descriptor in mdib (the entity is a copy that can be outdated)
-                descriptor_container = self._mdib.descriptions.handle.get_one(entity.descriptor.Handle)
-                tmp.descriptor_container = descriptor_container
+                # this is a new state
                 tmp.DescriptorVersion = descriptor_container.DescriptorVersion
                 if adjust_version_counter:
                     self._mdib.context_states.set_version(tmp)
             elif adjust_version_counter:
+                tmp.DescriptorVersion = descriptor_container.DescriptorVersion
                 tmp.StateVersion = old_state.StateVersion + 1
 
             self._state_updates[state_container.Handle] = TransactionItem(old=old_state, new=tmp)
